@@ -28,8 +28,8 @@ var rgenNotClaimed = map[string]string{
 	"(*font/opentype/tables.Gvar).parseGlyphVariationDatas": rgSibling + " (the offsets come from ParseLoca(glyphCount): glyphCount+1 entries)",
 	"(*font/opentype/tables.Strike).parseGlyphDatas":        rgSibling + " (the offsets come from ParseLoca(numGlyphs): numGlyphs+1 entries)",
 	"font.newBitmap":                                               rgSibling + " (CBLC.parseIndexSubTables makes IndexSubTables with len(BitmapSizes) entries)",
-	"font.unpackDeltas":                                            "reviewed: out[nbRead] follows the test nbRead+count <= pointNumbersCount made before each run of count values",
-	"font/opentype/tables.parseDeviceTable":                        rgNonLinear + " (count*nbPerUint16 values, filled by chunks of nbPerUint16)",
+	"font.unpackDeltas":                                            "reviewed: out[nbRead] follows the test nbRead+count <= pointNumbersCount made before each run of count values; the offsets 1+2*i and 1+2*count are computed in a byte, with count <= 64 (no wrap)",
+	"font/opentype/tables.parseDeviceTable":                        rgNonLinear + " (count*nbPerUint16 values, filled by chunks of nbPerUint16); src[offset+6:] adds in uint16 and may wrap to a SMALLER offset than the one tested in int: wrong data, no panic",
 	"(*font/opentype/tables.DeltaSetMapping).parseMap":             rgNonLinear,
 	"(*font/opentype/tables.FvarRecords).parseInstances":           rgNonLinear,
 	"(*font/opentype/tables.ItemVariationData).parseDeltaSets":     rgNonLinear,
@@ -85,7 +85,7 @@ var rgenNotClaimedAccess = map[string][]string{
 	"font.newBitmap":                               {"make(font.bitmap)[].subTables", "table.IndexSubTables"},
 	"font.parseGlyphVariationSerializedData":       {""},
 	"font.parsePointNumbers":                       {""},
-	"font.unpackDeltas":                            {"make([]int16)"},
+	"font.unpackDeltas":                            {"", "make([]int16)"},
 	"font/cff.ParseCFF2":                           {"src"},
 	"font/cff.parseIndexContent":                   {"src"},
 	"font/opentype.WriteTTF":                       {"", "make([]byte)"},
@@ -94,7 +94,7 @@ var rgenNotClaimedAccess = map[string][]string{
 	"font/opentype/tables.ParseGlyphVariationData": {"src"},
 	"font/opentype/tables.ParseLoca":               {"src"},
 	"font/opentype/tables.parseAATStateEntries":    {"src"},
-	"font/opentype/tables.parseDeviceTable":        {""},
+	"font/opentype/tables.parseDeviceTable":        {"", "src"},
 	"font/opentype/tables.parseKernx1Values":       {"src"},
 	"font/opentype/tables.parseValueRecord":        {"", "data"},
 	"font/opentype/tables.readContourPoint":        {"data"},
